@@ -132,6 +132,15 @@ def check(rep, tier, seed):
         if not valid:
             jobs.append((["view"], bytes.fromhex(c.split()[1]))); jl.append("view on text: " + what)
             jobs.append((["stat", "-s", "sum"], bytes.fromhex(c.split()[1]))); jl.append("stat on text: " + what)
+    # verbosity flags are no part of the verdict: every second job also carries -q / -qq / -v / -vv (before or after the
+    # subcommand); a rejected input exits non-zero whatever is silenced
+    flagsets = [["-q"], ["-qq"], ["-q", "-q"], ["--quiet", "--quiet", "--quiet"], ["-v"], ["-vv"], ["-qq", "-v"]]
+    for k in range(len(jobs)):
+        if k % 2 == 1:
+            fl = flagsets[(k // 2) % len(flagsets)]
+            argv, data = jobs[k]
+            jobs[k] = ((argv[:1] + fl + argv[1:]) if k % 4 == 1 else (argv + fl), data)
+            jl[k] += " [" + " ".join(fl) + "]"
     for lab, job, (rc, so, se) in zip(jl, jobs, run_cli_many(jobs)):
         rep.count("binary-rejects", lab, True)
         short = len(job[1]) < 6
